@@ -736,6 +736,15 @@ def wrap_symptom(d, folding):
     return None
 
 
+def _wrap_symptom_checked(d, folding, text):
+    """the 'after-dash' / 'hyphenated-word' symptoms describe a line end that the writer put DIRECTLY after a '-';
+    when the produced text has no '-' immediately followed by a line end the damage has another cause"""
+    sym = wrap_symptom(d, folding)
+    if sym and ("after-dash" in sym or "hyphenated" in sym) and not re.search("-[\n\r\v\f]", text or ""):
+        return None
+    return sym
+
+
 def _assignment_names(items):
     for k, vd in items:
         if vd[0] in ("group", "object"):
@@ -811,7 +820,7 @@ def roundtrip(desc, dialect, opts, mode):
                            symptom="parameter-name-missing-from-text")
     if d is not None:
         return "bad", _bad("differs", f"differs-{d.kind}", f"{lname} of the produced text {text!r} differs {d}", text,
-                           symptom=wrap_symptom(d, loader in FOLDING_LOADERS))
+                           symptom=_wrap_symptom_checked(d, loader in FOLDING_LOADERS, text))
     if mode == "stable":
         try:
             with time_limit(CASE_TIMEOUT):
